@@ -115,12 +115,14 @@ def body_ph(ctx, direction):
     x = ctx.real("x")
     A.update(x)
     B.update(x)
-    neg = scalar(A._mean) < 0
+    known = land(scalar(A._mean) < 0, tl == 0)
     skip = ("threshold", "_theta_threshold", "_drift_detected")
-    if bool(neg):
-        # recorded known finding: the bound is threshold * running mean, which *decreases* with the threshold
-        # when the running mean is negative (known_findings.json); keyed to exactly this situation
-        _lemma(ctx, A, B, skip, "[page-hinkley-negative-running-mean]")
+    if bool(known):
+        # recorded known finding: the bound is threshold * running mean.  With a negative running mean every
+        # positive threshold gives a negative bound (always exceeded), while threshold 0 gives the bound 0: the
+        # stricter setting alarms where threshold 0 does not.  Keyed to exactly this situation (loose threshold 0,
+        # negative running mean); for positive loose thresholds the lemma must hold even with a negative mean.
+        _lemma(ctx, A, B, skip, "[page-hinkley-negative-running-mean-loose-threshold-zero]")
         ctx.witness("negative-mean")
     else:
         _lemma(ctx, A, B, skip)
